@@ -98,6 +98,22 @@ func init() {
 			if p0, err0 := pipeline.Parse(strings.NewReader(text)); err0 == nil || warning.Is(err0) {
 				before, _ = json.Marshal(p0.Steps)
 			}
+			// some steps arrive already signed (an earlier signing with another key of the same algorithm, or a stale
+			// pipeline): signing must replace those signatures too
+			var stale func(ss pipeline.Steps)
+			stale = func(ss pipeline.Steps) {
+				for _, s := range ss {
+					switch t := s.(type) {
+					case *pipeline.CommandStep:
+						if rng.Chance(25) {
+							t.Signature = &pipeline.Signature{Algorithm: sx.Pick(rng, []string{key.alg, key.alg, "HS512"}), SignedFields: []string{"command"}, Value: "c3RhbGU.stale.sig"}
+						}
+					case *pipeline.GroupStep:
+						stale(t.Steps)
+					}
+				}
+			}
+			stale(p.Steps)
 			unknown := hasUnknownDeep(p.Steps)
 			var serr error
 			panicked := ""
